@@ -9,7 +9,7 @@ EXTENDS Robustness, TraceBase
 
 EventOK(e) ==
   /\ e.op = "api"
-  /\ Allowed(e.api, e.lens, e.outcome, e.after, e.msgclass)
+  /\ Allowed(e.api, e.lens, e.outcome, e.after, e.msgclass, e.overrun)
   /\ e.how = "valid" => e.outcome \in Success
 
 VARIABLE l
